@@ -108,6 +108,11 @@ class LRTDP(Plans):
             policy_dict[s] = self.policy(mdp, s)
             for a in mdp.actions(s):
                 q_values[s][a] = self.Q(mdp, s, a)
+        # states labelled solved without ever being backed up are not in V,
+        # but the labelling followed their fixed-order greedy action
+        for s in self.res.action_orders.keys():
+            if s not in policy_dict and not mdp.is_absorbing(s):
+                policy_dict[s] = self.policy(mdp, s)
         res.Q = q_values
 
         @FunctionalPolicy
